@@ -89,6 +89,17 @@ fn until_comma(s: &[u8]) -> Option<(&[u8], &[u8])> {
 
 /// `None` = the line does not have the sentence shape (must be rejected).
 pub fn recognise(line: &[u8]) -> Option<Parsed<'_>> {
+    recognise_with(line, true).map(|(p, _)| p)
+}
+
+/// The same scanner without the "value <= 0xFF" clause: returns the fields and the full value of
+/// the (first eight) hex digits. Used to tell "accepted although the transmitted value differs from
+/// the XOR" (C02) apart from other shape violations (C08).
+pub fn recognise_wide_checksum(line: &[u8]) -> Option<(Parsed<'_>, u32)> {
+    recognise_with(line, false)
+}
+
+fn recognise_with(line: &[u8], limit_ff: bool) -> Option<(Parsed<'_>, u32)> {
     let mut s = line;
     // optional tag block
     if s.first() == Some(&b'\\') {
@@ -147,11 +158,11 @@ pub fn recognise(line: &[u8]) -> Option<Parsed<'_>> {
     for &c in &s[..nh.min(8)] {
         v = v * 16 + (c as char).to_digit(16).unwrap() as u64;
     }
-    if v > 0xff {
+    if v > 0xff && limit_ff {
         return None;
     }
     let xor = after_delim[..first_star].iter().fold(0u8, |a, &b| a ^ b);
-    Some(Parsed {
+    Some((Parsed {
         talker,
         rtype,
         n,
@@ -163,7 +174,7 @@ pub fn recognise(line: &[u8]) -> Option<Parsed<'_>> {
         transmitted: v as u8,
         xor,
         embedded_star: first_star != star_pos,
-    })
+    }, v as u32))
 }
 
 /// Ingredients of a sentence; `render` produces the line with a correct (or chosen) checksum.
